@@ -288,6 +288,10 @@ func c09ChildPrograms(kind string, quick bool) []c09ChildProg {
 				c09ChildProg{fmt.Sprintf("callchain-%d", n), func() string { return "f" + strings.Repeat("()", n) }, 0},
 				c09ChildProg{fmt.Sprintf("dotchain-%d", n), func() string { return "m" + strings.Repeat(".a", n) }, 0},
 				c09ChildProg{fmt.Sprintf("mixed-%d", n), func() string { return strings.Repeat("(", n/9000+1) + "1" + strings.Repeat(strings.Repeat("+1", 9000)+")", n/9000+1) }, 0},
+				c09ChildProg{fmt.Sprintf("mixedwide-%d", n), func() string {
+					k := n/30000 + 3 // chains just under the parser's tree-depth limit, nested in parentheses on their left end
+					return strings.Repeat("(", k) + "1" + strings.Repeat(strings.Repeat("+1", 90000)+")", k)
+				}, 0},
 				c09ChildProg{fmt.Sprintf("stmts-%d", n), func() string { return strings.Repeat("1;", n) }, 0},
 				c09ChildProg{fmt.Sprintf("elseif-%d", n), func() string { return strings.Repeat("if false {1} else ", n) + "{2}" }, 0},
 			)
